@@ -2772,6 +2772,73 @@ def task_write_dispatch_wiring(scratch, tier, seed, logdir):
     return [ob.done()]
 
 
+TEXT_PARSE_NATIVE_TEST = r"""
+    #[test]
+    fn kv_text_value_count_is_checked() {
+        // every text body is accepted iff it has exactly product(shape) tokens that are all numbers,
+        // and then it is read as those numbers in that order
+        for shape in [vec![1usize], vec![3], vec![2, 3], vec![3, 1, 2], vec![5]] {
+            let n: usize = shape.iter().product();
+            let header = format!("#SHAPE=<{}>", shape.iter().map(|d| d.to_string()).collect::<Vec<_>>().join("/"));
+            for count in 0..n + 4 {
+                for sep in [" ", "\n", "  \t "] {
+                    let vals: Vec<f64> = (0..count).map(|i| i as f64 * 0.5 + 1.0).collect();
+                    let body = vals.iter().map(|v| v.to_string()).collect::<Vec<_>>().join(sep);
+                    let text = format!("{header}\n{body}\n");
+                    let got = read_scs(&mut text.as_bytes());
+                    if count == n {
+                        let scs = got.unwrap_or_else(|e| panic!("{count} values for shape {shape:?} rejected: {e}"));
+                        assert_eq!(scs.inner().iter().copied().collect::<Vec<_>>(), vals, "values of shape {shape:?} in order");
+                        assert_eq!(scs.shape().0, shape);
+                    } else {
+                        assert!(got.is_err(), "a text file with {count} values for shape {shape:?} (needs {n}) was read as a spectrum");
+                    }
+                }
+            }
+            // an unparsable token anywhere is an error as well
+            for bad in 0..n {
+                let body = (0..n).map(|i| if i == bad { "1.x".to_string() } else { "2".to_string() }).collect::<Vec<_>>().join(" ");
+                assert!(read_scs(&mut format!("{header}\n{body}\n").as_bytes()).is_err(), "token '1.x' at position {bad} accepted");
+            }
+        }
+    }
+"""
+
+
+def task_text_parse_wiring(scratch, tier, seed, logdir):
+    """C16 / C07: text::parse_scs = every whitespace-separated token parsed as f64 (any failure -> InvalidData),
+    all of them handed to Scs::new together with the declared shape (whose count check -> InvalidData)."""
+    fns = fns_for(scratch, "sfs-core")
+    ob = Ob("text_parse_wiring", ["spectrum::io::text::parse_scs (+ closures)"], "every path; split / parse / collect / Scs::new uninterpreted (tokenisation and float parsing themselves are std's)")
+    dev = []
+    try:
+        f = mir.find_fn(fns, r"^parse_scs$")
+        ps = [p for p in mir.Exec(f, [], max_paths=200).run({"_1": V("s", "U"), "_2": V("shape", "U")}) if p.end == "return"]
+        ob.d["queries"] += len(ps)
+        r = show(ps[0].ret) if len(ps) == 1 else ""
+        want = (r"std::result::Result::<Vec<f64>, std::io::Error>::and_then::<spectrum::Spectrum<Counts>, \{closure@[^}]*\}>\("
+                r"std::result::Result::<Vec<f64>, ParseFloatError>::map_err::<std::io::Error, \{closure@[^}]*\}>\("
+                r"<std::iter::Map<SplitAsciiWhitespace<'_>, .*?> as Iterator>::collect::<std::result::Result<Vec<f64>, ParseFloatError>>\("
+                r"<SplitAsciiWhitespace<'_> as Iterator>::map::<.*?>\(core::str::<impl str>::split_ascii_whitespace\(s\), <f64 as FromStr>::from_str\)\), "
+                r"ZeroSized: \{closure@[^}]*\}\), closure\{closure@[^}]*\}\{shape\}\(shape\)\)")
+        if len(ps) != 1 or ps[0].state.pc or not re.fullmatch(want, r):
+            dev.append("parse_scs is not split_ascii_whitespace -> parse every token -> collect -> Scs::new(all values, shape): " + r[:200])
+        cl = [c for c in fns if re.search(r"^parse_scs::\{closure#1\}$", mir.norm_name(c.name))]
+        if len(cl) == 1:
+            cps = [p for p in mir.Exec(cl[0], [], max_paths=50).run({"_1": V("cl", "U"), "_2": V("values", "U")}) if p.end == "return"]
+            rr = [show(p.ret) for p in cps]
+            if len(rr) != 1 or not re.fullmatch(r"std::result::Result::<spectrum::Spectrum<Counts>, array::ShapeError>::map_err::<std::io::Error, \{closure@[^}]*\}>\(spectrum::Spectrum::<Counts>::new::<Vec<f64>, Shape>\(values, field\(cl, 0\)\), ZeroSized: \{closure@[^}]*\}\)", rr[0]):
+                dev.append("the parsed values and the declared shape do not go to Scs::new unchanged: " + "; ".join(rr)[:200])
+        elif not dev:
+            dev.append(f"{len(cl)} shape closures in parse_scs")
+        ob.d["nonvacuous"] = True
+        if dev:
+            ob.fail("violation", " | ".join(dev))
+    except (LookupError, ValueError, RuntimeError, KeyError, IndexError, AttributeError, TypeError) as e:
+        ob.fail("inconclusive", f"translator: {type(e).__name__}: {e}")
+    return [ob.done()]
+
+
 def task_main_exit(scratch, tier, seed, logdir):
     """C10 / C16 / C17: main maps every Err of run() to a message on stderr and exit status 1."""
     fns = fns_for(scratch, "sfs-cli")
@@ -2863,6 +2930,7 @@ TASKS = {
     "fold_wiring": task_fold_wiring,
     "harmonic_wiring": task_harmonic_wiring,
     "write_dispatch_wiring": task_write_dispatch_wiring,
+    "text_parse_wiring": task_text_parse_wiring,
     "shape_closures": task_shape_closures,
 }
 
@@ -2881,6 +2949,7 @@ def _native_registry():
         "fold_wiring": dict(crate="sfs-core", file="core/src/spectrum/folded.rs", name="kv_fold_history_independent", code=FOLD_NATIVE_TEST),
         "project_wiring": dict(crate="sfs-core", file="core/src/spectrum.rs", name="kv_project_against_definition", code=PROJECT_NATIVE_TEST),
         "read_array_wiring": dict(crate="sfs-core", file="core/src/array/npy.rs", name="kv_npy_declared_shape_is_not_trusted", code=READ_ARRAY_NATIVE_TEST),
+        "text_parse_wiring": dict(crate="sfs-core", file="core/src/spectrum/io/text.rs", name="kv_text_value_count_is_checked", code=TEXT_PARSE_NATIVE_TEST),
         "view_pipeline": dict(crate="sfs-cli", file="cli/tests/kv_view_is_chain_of_steps.rs", name="kv_view_is_chain_of_steps", code=VIEW_NATIVE_TEST, integration=True),
     }
 
@@ -2998,6 +3067,65 @@ fn kv_view_never_panics() {
 """
 
 
+VIEW_MARGINALIZE_NATIVE_TEST = r"""
+// generated by /verif (mir2smt replay for C04): `sfs view --marginalize-remove/-keep` on the built binary
+use std::process::Command;
+
+fn run(args: &[String]) -> (Option<i32>, String, String) {
+    let out = Command::new(env!("CARGO_BIN_EXE_sfs")).args(args).env("SFS_ALLOW_STDIN", "1").stdin(std::process::Stdio::null()).output().expect("sfs runs");
+    (out.status.code(), String::from_utf8_lossy(&out.stdout).to_string(), String::from_utf8_lossy(&out.stderr).to_string())
+}
+
+#[test]
+fn kv_view_marginalize_cli() {
+    let dir = std::env::temp_dir().join(format!("kv_viewm_{}", std::process::id()));
+    std::fs::create_dir_all(&dir).unwrap();
+    let shape = [2usize, 3, 2, 4];
+    let n: usize = shape.iter().product();
+    let vals: Vec<f64> = (0..n).map(|i| (i * i % 17) as f64 + 1.0).collect();
+    let input = dir.join("in.txt");
+    std::fs::write(&input, format!("#SHAPE=<2/3/2/4>\n{}\n", vals.iter().map(|v| v.to_string()).collect::<Vec<_>>().join(" "))).unwrap();
+    let view = |opt: &str, list: &str| run(&["view".to_string(), "--precision".into(), "3".into(), opt.to_string(), list.to_string(), input.display().to_string()]);
+    // every non-empty proper subset of the axes, named in ascending and in descending order
+    for mask in 1u32..15 {
+        let removed: Vec<usize> = (0..4).filter(|j| mask & (1 << j) != 0).collect();
+        let kept: Vec<usize> = (0..4).filter(|j| mask & (1 << j) == 0).collect();
+        // reference: sum over the removed axes, kept axes in their original order
+        let kshape: Vec<usize> = kept.iter().map(|&j| shape[j]).collect();
+        let mut want = vec![0.0f64; kshape.iter().product()];
+        for (flat, v) in vals.iter().enumerate() {
+            let mut idx = [0usize; 4];
+            let mut f = flat;
+            for j in (0..4).rev() {
+                idx[j] = f % shape[j];
+                f /= shape[j];
+            }
+            let mut k = 0;
+            for &j in &kept {
+                k = k * shape[j] + idx[j];
+            }
+            want[k] += v;
+        }
+        let header = format!("#SHAPE=<{}>", kshape.iter().map(|d| d.to_string()).collect::<Vec<_>>().join("/"));
+        let body = want.iter().map(|v| format!("{v:.3}")).collect::<Vec<_>>().join(" ");
+        let expect = format!("{header}\n{body}\n");
+        let asc = removed.iter().map(|j| j.to_string()).collect::<Vec<_>>().join(",");
+        let desc = removed.iter().rev().map(|j| j.to_string()).collect::<Vec<_>>().join(",");
+        let keep = kept.iter().map(|j| j.to_string()).collect::<Vec<_>>().join(",");
+        for (opt, list) in [("-m", &asc), ("-m", &desc), ("-M", &keep)] {
+            let (code, out, err) = view(opt, list);
+            assert_eq!((code, out.as_str()), (Some(0), expect.as_str()), "sfs view {opt} {list} on shape 2/3/2/4: {err}");
+        }
+    }
+    // duplicate axes, out-of-range axes and removing every axis are errors
+    for list in ["1,1", "0,2,0", "4", "0,4", "7", "0,1,2,3", "3,2,1,0"] {
+        let (code, out, err) = view("-m", list);
+        assert!(code == Some(1) && out.is_empty() && !err.contains("panicked"), "sfs view -m {list} on a 4-axis spectrum must be a diagnosed error, got status {code:?}, stdout {out:?}, stderr {err:?}");
+    }
+    let _ = std::fs::remove_dir_all(&dir);
+}
+"""
+
 def _native_by_property():
     """a task that serves several properties is replayed with the clause of the property being checked:
     a failing replay must be a violation of THAT property's statement"""
@@ -3007,6 +3135,7 @@ def _native_by_property():
         ("C17", "header_write_padding"): dict(crate="sfs-core", file="core/src/array/npy/header.rs", name="kv_header_write_never_panics", code=HEADER_PANIC_NATIVE_TEST),
         ("C07", "write_dispatch_wiring"): dict(crate="sfs-core", file="core/src/spectrum/io/write.rs", name="kv_written_spectrum_is_read_back", code=WRITE_ROUNDTRIP_NATIVE_TEST),
         ("C13", "write_dispatch_wiring"): dict(crate="sfs-core", file="core/src/spectrum/io/write.rs", name="kv_written_spectrum_is_read_back", code=WRITE_ROUNDTRIP_NATIVE_TEST),
+        ("C04", "view_pipeline"): dict(crate="sfs-cli", file="cli/tests/kv_view_marginalize_cli.rs", name="kv_view_marginalize_cli", code=VIEW_MARGINALIZE_NATIVE_TEST, integration=True),
         ("C17", "view_pipeline"): dict(crate="sfs-cli", file="cli/tests/kv_view_never_panics.rs", name="kv_view_never_panics", code=VIEW_PANIC_NATIVE_TEST, integration=True),
     }
 
